@@ -43,3 +43,8 @@ package stdlib
 //@ func kfBucketRange$1
 //@   requires *bucketSize > 0
 //@   requires len(*args) == 2
+
+// C18: quarter is 1..4 with January-March = 1, i.e. (month-1)/3 + 1.
+//@ func init$5 at "month := int(t.Month())"
+//@   ensures result == itoa((month_of(t) - 1) / 3 + 1)
+//@   ensures 1 <= unitoa(result) && unitoa(result) <= 4
